@@ -72,7 +72,7 @@ func c11Class(in, norm []byte) string {
 	return ""
 }
 
-var c11Syms = []string{"ab", "Ab", "1.", "a.", "A.", "x-\n", "\n", "copyright 2000 x\n", "https://a.b", "http://s.a", "Https://a.b", "HTTPS://A.B", "&#65;b", "\u0130.", "\u212a.", "1-", "(c)", "&amp;", "zqoov", "2.0", "licence", "IV.", "b)", "-", "(\u30e9\u30a4)", "&quot;\u8bb8\u53ef&quot;", "\u65e5\u672c"}
+var c11Syms = []string{"ab", "Ab", "1.", "a.", "A.", "x-\n", "\n", "copyright 2000 x\n", "copyright 2000 y-\n", "https://a.b", "http://s.a", "Https://a.b", "HTTPS://A.B", "&#65;b", "\u0130.", "\u212a.", "1-", "(c)", "&amp;", "zqoov", "2.0", "licence", "IV.", "b)", "-", "(\u30e9\u30a4)", "&quot;\u8bb8\u53ef&quot;", "\u65e5\u672c"}
 
 func c11Build(seq []int) []byte {
 	var sb strings.Builder
